@@ -938,7 +938,7 @@ def _sim_forged(self, victim, op):
         return None
     # the packet takes the peer's next packet number, which is then reserved (written to hooked state) so that the
     # genuine peer never reuses it: as far as numbering goes the peer has sent one more packet
-    pn = peer.conn._packet_number
+    pn = peer.conn._packet_number + int(op.get("pn_gap", 0))  # pn_gap: packet numbers the peer "skipped" (or whose packets were lost)
     peer.conn._packet_number = pn + 1
     payload = bytes.fromhex(op["frames_hex"])
     if len(payload) < 3:
